@@ -10,8 +10,9 @@ from .harness import call
 META = {
     "rule": "drivers {CIPDriver, LogixDriver(init_tags=False), LogixDriver() with tag upload, SLCDriver} x target policies {large Forward Open ok, "
     "large refused (service not supported), large refused (invalid size), all Forward Opens refused, session refused, TCP refused, "
-    "Forward Close refused, session handles / connection ids with the top bit set} x events {open, close, read, write, generic connected, generic unconnected, with-block normal, "
-    "with-block raising}; breadth-first search over call histories, each history replayed on a fresh driver against a fresh stateful "
+    "large refused with no / one byte of failure data, Forward Close refused, RegisterSession refused with a non-zero session field, target busy for the first 1 / 2 Forward Opens, "
+    "session handles / connection ids with the top bit set} x events {open, close, read, write, generic connected, generic unconnected, with-block normal, "
+    "with-block raising, with-block doing connected work and left by a foreign CommError}; breadth-first search over call histories, each history replayed on a fresh driver against a fresh stateful "
     "target; one transport fault (send error, partial send then error, receive error, peer vanishes, truncated reply then peer "
     "vanishes) at EVERY I/O index of EVERY event (quick: one fault per history, depth 3; thorough: two faults, depth 4); states are "
     "de-duplicated by (driver.connected, connection size, TCP open, target session/connection tables, refused Forward Open "
